@@ -291,6 +291,15 @@ func (g *Gen) doc(id V) V {
 			kv = append(kv, f, g.fieldValue(f))
 		}
 	}
+	if g.P.Rich && g.chance(0.3) {
+		// a list of records, each with a time: times inside objects inside arrays
+		n := 1 + g.r.Intn(3)
+		var el []V
+		for i := 0; i < n; i++ {
+			el = append(el, AObj("at", g.tim(), "n", g.smallNum()))
+		}
+		kv = append(kv, "ev", AArr(el...))
+	}
 	if g.P.Pads && g.chance(0.6) {
 		kv = append(kv, "p", APad([]int{16, 100, 4000, 4096, 4200, 5000, 70000}[g.r.Intn(7)]))
 	}
